@@ -839,18 +839,21 @@ func (self *_Compiler) compilePtr(p *_Program, sp int, et reflect.Type) {
 	p.add(_OP_is_null)
 
 	/* dereference all the way down */
+	marshaler := false
 	for et.Kind() == reflect.Ptr {
-		if self.checkMarshaler(p, et, 0, true) {
-			return
+		if marshaler = self.checkMarshaler(p, et, 0, true); marshaler {
+			break
 		}
 		et = et.Elem()
 		p.rtt(_OP_deref, et)
 	}
 
 	/* check for recursive nesting */
-	ok := self.tab[et]
-	if ok {
+	if marshaler {
+		/* the unmarshaler has been emitted, still need the null branch below */
+	} else if self.tab[et] {
 		p.rtt(_OP_recurse, et)
+		delete(self.tab, et)
 	} else {
 		/* enter the recursion */
 		p.add(_OP_lspace)
@@ -860,8 +863,8 @@ func (self *_Compiler) compilePtr(p *_Program, sp int, et reflect.Type) {
 		 * recursing the defined pointer type's elem will cause issue379.
 		 */
 		self.compileOps(p, sp, et)
+		delete(self.tab, et)
 	}
-	delete(self.tab, et)
 
 	j := p.pc()
 	p.add(_OP_goto)
